@@ -46,7 +46,7 @@ func parseInitDoc(text string) (any, bool) {
 	return v, err == nil
 }
 
-var pathMenu = []string{"a", "a.b", "a[0]", "a[-1]", "[1]", "$", "a.*", "*", "..b", "a[1].b", "b", "a.c"}
+var pathMenu = []string{"a", "a.b", "a[0]", "a[-1]", "[1]", "$", "a.*", "*", "..b", "a[1].b", "b", "a.c", "-"}
 var pathMenuThoroughExtra = []string{"[0]", "a[1]", "[-1].b"}
 
 type setValue struct {
@@ -87,6 +87,9 @@ func bfsOps(tier string) []string {
 	}
 	for _, k := range []string{"get", "has", "walk", "rm"} {
 		for _, p := range paths {
+			if p == "-" && (k == "has" || k == "walk") {
+				continue // these take a path
+			}
 			ops = append(ops, k+"|"+p)
 		}
 	}
@@ -135,26 +138,38 @@ func init() {
 
 // ------------------------------------------------------------ exec
 
-func opSource(op string) (src string, kind, path string, val setValue, ok bool) {
+// opSource gives the Lisp source of an operation in its function form
+// (bag-get ...) and in its method form (send b :get ...), which slip documents
+// as the same operation. The path "-" stands for "no path argument" (the whole
+// bag). b is replaced by the variable name the caller wants.
+func opSource(op string) (src, msrc string, kind, path string, val setValue, ok bool) {
 	parts := strings.Split(op, "|")
 	kind = parts[0]
+	if len(parts) < 2 {
+		return
+	}
+	path = parts[1]
+	parg := " p"
+	if path == "-" {
+		parg = ""
+	}
 	switch kind {
 	case "init":
 		if len(parts) != 2 {
 			return
 		}
 		if parts[1] == "" {
-			return "(make-instance 'bag-flavor)", kind, "", val, true
+			return "(make-instance 'bag-flavor)", "", kind, "", val, true
 		}
-		return "(make-bag doc)", kind, parts[1], val, true
+		return "(make-bag doc)", "", kind, parts[1], val, true
 	case "get":
-		src = "(bag-get b p)"
+		src, msrc = "(bag-get b"+parg+")", "(send b2 :get"+parg+")"
 	case "has":
-		src = "(bag-has b p)"
+		src, msrc = "(bag-has b p)", "(send b2 :has p)"
 	case "walk":
-		src = "(bag-walk b (lambda (x) (c18-visit x)) p)"
+		src, msrc = "(bag-walk b (lambda (x) (c18-visit x)) p)", "(send b2 :walk (lambda (x) (c18-visit x)) p)"
 	case "rm":
-		src = "(bag-remove b p)"
+		src, msrc = "(bag-remove b"+parg+")", "(send b2 :remove"+parg+")"
 	case "set":
 		if len(parts) != 3 {
 			return
@@ -163,14 +178,14 @@ func opSource(op string) (src string, kind, path string, val setValue, ok bool) 
 		if val, has = valueByName(parts[2]); !has {
 			return
 		}
-		src = "(bag-set b " + val.src + " p)"
+		src, msrc = "(bag-set b "+val.src+parg+")", "(send b2 :set "+val.src+parg+")"
 	default:
 		return
 	}
-	if len(parts) < 2 {
+	if path == "-" && (kind == "has" || kind == "walk") {
 		return
 	}
-	return src, kind, parts[1], val, true
+	return src, msrc, kind, path, val, true
 }
 
 func rootClass(v any) string {
@@ -241,7 +256,7 @@ func execHist(hist []string, raw bool) (res engine.Result) {
 	scope := slip.NewScope()
 	var b *flavors.Instance
 	for i, op := range hist {
-		src, kind, path, val, ok := opSource(op)
+		src, msrc, kind, path, val, ok := opSource(op)
 		if !ok {
 			res.Fail("harness:bad-op", op)
 			return
@@ -275,7 +290,7 @@ func execHist(hist []string, raw bool) (res engine.Result) {
 			_, _ = lisp.EvalIn(scope, src)
 			continue
 		}
-		checkedStep(&res, scope, b, src, kind, path, val, raw)
+		checkedStep(&res, scope, b, src, msrc, kind, path, val, raw)
 	}
 	return
 }
@@ -304,11 +319,18 @@ func wouldNotReturn(kind string, p jsonpath.Path, val setValue, preShared bool) 
 	return false
 }
 
-func checkedStep(res *engine.Result, scope *slip.Scope, b *flavors.Instance, src, kind, path string, val setValue, raw bool) {
-	p, perr := jsonpath.Parse(path)
-	if perr != nil {
-		res.Fail("harness:bad-path", path+": "+perr.Error())
-		return
+func checkedStep(res *engine.Result, scope *slip.Scope, b *flavors.Instance, src, msrc, kind, path string, val setValue, raw bool) {
+	var p jsonpath.Path
+	noPath := path == "-"
+	if noPath {
+		p = jsonpath.Path{{Kind: jsonpath.Root}}
+		res.Hit("no-path-argument")
+	} else {
+		var perr error
+		if p, perr = jsonpath.Parse(path); perr != nil {
+			res.Fail("harness:bad-path", path+": "+perr.Error())
+			return
+		}
 	}
 	pre := copyTree(b.Any)
 	preKey, preShared := aliasDump(b.Any)
@@ -327,6 +349,9 @@ func checkedStep(res *engine.Result, scope *slip.Scope, b *flavors.Instance, src
 	res.Key = key
 	res.Nontrivial = true
 	pk := p.Kind()
+	if noPath {
+		pk = "none"
+	}
 	ctx := fmt.Sprintf("on %s: %s with p=%q", trunc(dump(pre, false), 160), src, path)
 	sig := func(law string) string { return fmt.Sprintf("op=%s path=%s law=%s", kind, pk, law) }
 	aliasNote := ""
@@ -448,6 +473,9 @@ func checkedStep(res *engine.Result, scope *slip.Scope, b *flavors.Instance, src
 			res.Hit("remove-of-existing")
 		}
 		want := jsonpath.Remove(pre, locs)
+		if noPath {
+			want = nil // documented: the bag value is set to nil
+		}
 		if !equalTrees(want, post, false) {
 			law := "remove-result"
 			if equalTrees(pre, post, false) {
@@ -456,7 +484,7 @@ func checkedStep(res *engine.Result, scope *slip.Scope, b *flavors.Instance, src
 			res.Fail(sig(law)+aliasNote, fmt.Sprintf("%s left %s; removing %v should leave %s", ctx, trunc(dump(post, false), 160), locs, trunc(dump(want, false), 160)))
 		}
 		// through the API: a removed member is gone for has
-		if p.Definite() && p[len(p)-1].Kind == jsonpath.Child {
+		if !noPath && p.Definite() && p[len(p)-1].Kind == jsonpath.Child {
 			h, herr := lisp.EvalIn(scope, "(bag-has b p)")
 			if herr == nil && lisp.Truthy(h) {
 				res.Fail(sig("has-after-remove"), ctx+": bag-has is still true after the remove")
@@ -471,6 +499,91 @@ func checkedStep(res *engine.Result, scope *slip.Scope, b *flavors.Instance, src
 			res.Outcome = "set error " + key
 		}
 	}
+	methodAgrees(res, scope, msrc, kind, p, pre, post, out, err, preShared, sig, ctx)
+}
+
+// methodAgrees: slip documents (bag-get ...) etc. as "the same as the :get
+// method of the bag-flavor"; the method form is run on a fresh bag holding a
+// copy of the pre-state and must do what the function form did. Not compared
+// where the two may legitimately differ: get through a path that can match
+// several locations (which one comes first is not fixed), and mutations of a
+// bag that holds a shared container (the copy does not share).
+func methodAgrees(res *engine.Result, scope *slip.Scope, msrc, kind string, p jsonpath.Path, pre, post any, out slip.Object,
+	err *lisp.Err, preShared bool, sig func(string) string, ctx string) {
+	if msrc == "" || (err != nil && err.GoFault) {
+		return
+	}
+	mutating := kind == "set" || kind == "rm"
+	if mutating && preShared {
+		return
+	}
+	if kind == "get" && !p.Definite() {
+		return
+	}
+	if kind == "rm" && strings.HasSuffix(msrc, ":remove)") {
+		// (send bag :remove) without a path is refused with an arity error
+		// although the method's documentation makes the path optional; that
+		// is a matter of documented arity, not of this property (S2)
+		return
+	}
+	b2 := newBag(copyTree(pre))
+	scope.Let("b2", b2)
+	visitMu.Lock()
+	fvisited := visited
+	visited = nil
+	visitMu.Unlock()
+	mout, merr := lisp.EvalIn(scope, msrc)
+	res.Hit("method-form-compared")
+	switch {
+	case merr != nil && merr.GoFault:
+		res.Fail(sig("no-go-fault"), ctx+": method form "+msrc+" => "+merr.String())
+		return
+	case (merr == nil) != (err == nil):
+		res.Fail(sig("method-agrees-with-function"), fmt.Sprintf("%s => %s but %s => %s", ctx, errOrOK(err), msrc, errOrOK(merr)))
+		return
+	case merr != nil:
+		return
+	}
+	differ := ""
+	switch kind {
+	case "get":
+		if a, m := dump(lispToTree(out), true), dump(lispToTree(mout), true); a != m {
+			differ = a + " vs " + m
+		}
+	case "has":
+		if lisp.Truthy(out) != lisp.Truthy(mout) {
+			differ = fmt.Sprintf("%v vs %v", lisp.Truthy(out), lisp.Truthy(mout))
+		}
+	case "walk":
+		var a, m []string
+		for _, o := range fvisited {
+			a = append(a, dump(lispToTree(o), true))
+		}
+		visitMu.Lock()
+		for _, o := range visited {
+			m = append(m, dump(lispToTree(o), true))
+		}
+		visitMu.Unlock()
+		sort.Strings(a)
+		sort.Strings(m)
+		if strings.Join(a, "\x00") != strings.Join(m, "\x00") {
+			differ = fmt.Sprintf("visited %v vs %v", a, m)
+		}
+	case "set", "rm":
+		if a, m := dump(post, false), dump(b2.Any, false); a != m {
+			differ = "bag " + trunc(a, 120) + " vs " + trunc(m, 120)
+		}
+	}
+	if differ != "" {
+		res.Fail(sig("method-agrees-with-function"), fmt.Sprintf("%s and %s disagree: %s", ctx, msrc, differ))
+	}
+}
+
+func errOrOK(e *lisp.Err) string {
+	if e == nil {
+		return "a value"
+	}
+	return e.String()
 }
 
 func checkSet(res *engine.Result, scope *slip.Scope, p jsonpath.Path, pre, post any, val setValue, err *lisp.Err,
@@ -503,7 +616,11 @@ func checkSet(res *engine.Result, scope *slip.Scope, p jsonpath.Path, pre, post 
 		}
 		// get-after-set through bag-get
 		if 0 < len(postLocs) {
-			g, gerr := lisp.EvalIn(scope, "(bag-get b p)")
+			gsrc := "(bag-get b p)"
+			if len(p) == 1 && p[0].Kind == jsonpath.Root {
+				gsrc = "(bag-get b)"
+			}
+			g, gerr := lisp.EvalIn(scope, gsrc)
 			if gerr != nil {
 				if !gerr.GoFault {
 					res.Fail(sig("get-after-set")+" why=bag-get-error", ctx+": (bag-get b p) afterwards => "+gerr.String())
@@ -628,7 +745,7 @@ func execTerm(spec string) (res engine.Result) {
 	}
 	done := make(chan error, 1)
 	go func() { done <- cmd.Wait() }()
-	_, kind, path, _, _ := opSource(hist[len(hist)-1])
+	_, _, kind, path, _, _ := opSource(hist[len(hist)-1])
 	pk := path
 	if p, perr := jsonpath.Parse(path); perr == nil {
 		pk = p.Kind()
